@@ -16,6 +16,10 @@ extern crate alloc;
 
 const SPIN_REPETITIONS: u64 = 10000;
 
+#[cfg(not(iceoryx2_verif))]
+pub mod atomic;
+#[cfg(iceoryx2_verif)]
+#[path = "atomic_verif.rs"]
 pub mod atomic;
 pub mod cell;
 pub mod lazy_lock;
